@@ -41,7 +41,7 @@ def main():
         "engines": [{"name": "pyvc", "path": "pyvc/", "serves_properties": sorted(CLAIMS),
                      "kind_free_text": "AST->SMT verification-condition generator over the real function sources of /repo (sidecar contracts, loop invariants, modular callee contracts), z3 5.1 + cvc5 1.0.3 back ends, counter-models replayed natively with /venv/bin/python"}],
         "checks": checks,
-        "notes": "Every check re-extracts its kernels from /repo's working tree (PYVC_REPO overrides the path). Exit 0 all obligations discharged; 1 VIOLATION (sat obligation, replayed natively where a replayer exists, else no-failing-input-found); 2 undecided (unknown/timeout/unsupported construct); 3 checker crash or contradictory assumptions. fix: commits in /repo: " + "; ".join(l for l in repo_fixes if " fix:" in l),
+        "notes": "Every check re-extracts its kernels from /repo's working tree (PYVC_REPO overrides the path). VERIF_SEED is recorded but the bounded corpora use fixed seeds (deterministic verdicts; the thorough tier runs more seeds and larger corpora). Exit 0 all obligations discharged; 1 VIOLATION (sat obligation, replayed natively where a replayer exists, else no-failing-input-found); 2 undecided (unknown/timeout/unsupported construct); 3 checker crash or contradictory assumptions. fix: commits in /repo: " + "; ".join(l for l in repo_fixes if " fix:" in l),
         "not_applicable": [{"property_id": p["id"], "reason": NA.get(p["id"], "core kernels not (yet) brought under contract; see DESIGN.md §9")} for p in PROPS if p["id"] not in CLAIMS],
     }
     json.dump(m, open(os.path.join(ROOT, "MANIFEST.json"), "w"), indent=1)
